@@ -44,7 +44,7 @@ fn panic_kind(payload: &(dyn Any + Send)) -> &'static str {
         (&["left == right", "left: "], "kind"),
         (&["not implemented"], "unimpl"),
         (&["already borrowed", "already mutably borrowed"], "borrow"),
-        (&["index out of bounds", "out of range"], "oob"),
+        (&["index out of bounds", "out of range", "Out of bounds"], "oob"),
         (&["f32::from(t1) >= 0.0"], "mpT1"),
         (&["f32::from(d_t3) >= 0.0"], "mpT3"),
         (&["f32::from(d_t2) >= 0.0"], "mpT2"),
